@@ -24,12 +24,18 @@ Section C06.
   Proof. exact (rv_le_extent fm fl eps). Qed.
   Theorem C06_so2_distance_le_extent : forall a b, so2_inb a -> so2_inb b -> 0 <= so2_distance A a b <= extent A (SO2 A).
   Proof. intros a b Ha Hb. apply (so2_dist_facts fm fl eps a b Ha Hb). Qed.
+  (* and on every space built from the bounded leaves by weighted composition (weights >= 0, compounds nested to any depth):
+     CompoundStateSpace::getMaximumExtent sums weight x extent over the components with a positive weight (the repaired rule) *)
+  Theorem C06_distance_le_extent_every_bounded_space : forall sp, bounded_sp fm fl eps sp ->
+    forall a b, inb fm fl eps sp a -> inb fm fl eps sp b -> distance A sp a b <= extent A sp.
+  Proof. exact (distance_le_extent fm fl eps). Qed.
 End C06.
 
 Print Assumptions C06_distance_is_metric.
 Print Assumptions C06_compound_is_weighted_sum.
 Print Assumptions C06_rv_distance_le_extent.
 Print Assumptions C06_so2_distance_le_extent.
+Print Assumptions C06_distance_le_extent_every_bounded_space.
 
 (* non-vacuity and a defect, on the binary64 instance *)
 Local Open Scope float_scope.
@@ -37,9 +43,9 @@ Example C06_nonvacuous :
   distance FlA (Comp FlA [(1, RV FlA [(0,1);(0,1)]); (0.5, SO2 FlA)]) (C FlA [L FlA [0.25;0.5]; L FlA [3]]) (C FlA [L FlA [1;0.5]; L FlA [-3]])
   = 0.89159265358979312.
 Proof. vm_compute. reflexivity. Qed.
-(* the compound extent skips components whose weight is below epsilon, but the distance still adds them:
-   two in-bounds states farther apart than the reported maximum extent *)
+(* the pinned rule skipped components whose weight is below epsilon while the distance still adds them: two in-bounds states farther
+   apart than the reported maximum extent; with the repaired rule (every positive weight) the extent is 2^-60 as well *)
 Example C06_compound_extent_refuted :
   let sp := Comp FlA [(0x1p-60, RV FlA [(0, 1)])] in
-  extent FlA sp = 0 /\ distance FlA sp (C FlA [L FlA [0]]) (C FlA [L FlA [1]]) = 0x1p-60.
-Proof. vm_compute. split; reflexivity. Qed.
+  extent_orig FlA sp = 0 /\ distance FlA sp (C FlA [L FlA [0]]) (C FlA [L FlA [1]]) = 0x1p-60 /\ extent FlA sp = 0x1p-60.
+Proof. vm_compute. repeat split; reflexivity. Qed.
